@@ -73,8 +73,12 @@ class PyKdebugParser:
             filter_class.append(DBG_FSYSTEM)
 
         traces_parser = TracesParser(trace_codes_map, self.threads_pids, self.pids_names)
-        trace_generator = traces_parser.feed_generator(self._kevents(kdebug, self.filter_tid, filter_class))
+        # The events of all the threads are parsed, traces of a thread use data that other threads recorded
+        # (e.g. the parent thread records the pid of a new thread, global strings are recorded once).
+        trace_generator = traces_parser.feed_generator(self._kevents(kdebug, None, filter_class))
 
+        if self.filter_tid is not None:
+            trace_generator = filter(lambda t: t.ktraces[0].tid == self.filter_tid, trace_generator)
         if self.filter_process is not None:
             trace_generator = filter(self._filter_process_callback, trace_generator)
         if add_trace_class:
